@@ -716,6 +716,11 @@ func (w *gWorld) finalMonitor(e *Env) {
 type gChooser func(w *gWorld, step int) string // next op ("" ends the schedule)
 
 func runGossip(t *testing.T, e *Env, begin string, next gChooser) (ops []string, viol []map[string]any) {
+	// a schedule takes milliseconds; one that does not finish means the real code is spinning or blocked on it
+	stopWatchdog := e.Watchdog(90*time.Second, func() map[string]any {
+		return map[string]any{"what": "the schedule did not finish: the shard managers are spinning or blocked while processing the last operation (no convergence)", "ops": append([]string{}, ops...)}
+	})
+	defer stopWatchdog()
 	synctest.Test(t, func(t *testing.T) {
 		if os.Getenv("VERIF_C09_MODEL") == "asis" && !strings.Contains(begin, " asis") {
 			begin += " asis" // compare with the model of the tree before the C09 repair (used to re-confirm the old finding)
@@ -729,6 +734,11 @@ func runGossip(t *testing.T, e *Env, begin string, next gChooser) (ops []string,
 		for i := 0; ; i++ {
 			op := next(w, i)
 			if op == "" {
+				break
+			}
+			if i > 3000 {
+				// every schedule of the generators ends after a few dozen operations once everything in flight was delivered
+				w.violation(fmt.Sprintf("no convergence: after %d operations announcements are still being produced / in flight (the shard managers keep answering each other)", i), nil)
 				break
 			}
 			ops = append(ops, op)
